@@ -6,8 +6,9 @@ import (
 	"github.com/luthersystems/elps/lisp"
 )
 
-// SortedMap implements lisp.Map and only supports string keys.  Values must be
-// lisp.LVal.
+// SortedMap implements lisp.Map.  Keys are strings; like every sorted map a key
+// may be given as a string or as a symbol and is identified by its name.
+// Values must be lisp.LVal.
 type SortedMap map[string]interface{}
 
 var _ lisp.Map = SortedMap(nil)
@@ -17,7 +18,7 @@ func (m SortedMap) Len() int {
 }
 
 func (m SortedMap) Get(k *lisp.LVal) (*lisp.LVal, bool) {
-	if k.Type != lisp.LString {
+	if k.Type != lisp.LString && k.Type != lisp.LSymbol {
 		return lisp.Errorf("sorted-map decoded from json cannot hold key with type %s", lisp.GetType(k)), false
 	}
 	x, ok := m[k.Str]
@@ -28,7 +29,7 @@ func (m SortedMap) Get(k *lisp.LVal) (*lisp.LVal, bool) {
 }
 
 func (m SortedMap) Del(k *lisp.LVal) *lisp.LVal {
-	if k.Type != lisp.LString {
+	if k.Type != lisp.LString && k.Type != lisp.LSymbol {
 		return lisp.Errorf("sorted-map decoded from json cannot hold key with type %s", lisp.GetType(k))
 	}
 	delete(m, k.Str)
@@ -36,7 +37,7 @@ func (m SortedMap) Del(k *lisp.LVal) *lisp.LVal {
 }
 
 func (m SortedMap) Set(k *lisp.LVal, v *lisp.LVal) *lisp.LVal {
-	if k.Type != lisp.LString {
+	if k.Type != lisp.LString && k.Type != lisp.LSymbol {
 		return lisp.Errorf("sorted-map decoded from json cannot hold key with type %s", lisp.GetType(k))
 	}
 	m[k.Str] = v
